@@ -306,7 +306,7 @@ PROPS = {
         "assumptions": ["the model runs the wrapper over a slice; C08 extends to other inputs"],
     },
     "C12": {
-        "streams": ["mem", "wrapops"],
+        "streams": ["mem", "wrapops", "bigmem"],
         "rule": "mem requests for every DecodeWithMemTracking catalogue type on valid and mutated encodings: first L = usize::MAX (gives U = used_mem()), then every L in 0..=U+1 when U <= 96 (4096 thorough), boundary limits {0,1,U/2,U-1,U,U+1,2U} otherwise: result, remaining and used_mem() compared with the model after success and failure; oracles: non-binding limit transparent, success for all L > U, failure for all 0 < L <= U; plus operation sequences (hook sizes incl. 0, usize::MAX and saturating sums; limits incl. 0 and usize::MAX) on a real MemTrackingInput vs the model, used_mem() compared after every operation. non-trivial = distinct request whose model answer is not `err`",
         "level_text": "Proved in Lean for every type, byte string and limit L <= usize::MAX: memory-limited decoding returns exactly the unlimited result or an error; with U the tracked usage of the unlimited run, if unlimited decoding succeeds then L > U gives the same value, position and used_mem = U, and U > 0 with L <= U gives an error - a single exact threshold (hence monotone). The hook sizes (chunked vec reservations, Box sizes, list node sizes, the transliterated mem_size_of_btree estimate) are part of the decoder model and compared with used_mem() of the real MemTrackingInput on every request.",
         "level_note": "Trusted: as C01; size_of values and the b-tree leaf size are measured by the harness in the same build and passed in the type descriptor. Partial: 'U is zero for values holding no heap data and at least the payload bytes' is established per request by comparing the model's U with the real used_mem() and by the kernel-checked examples; the general value-level lower bound is not yet a theorem.",
